@@ -2799,12 +2799,30 @@ hnd_get_wellknown_lkd(coap_resource_t *resource,
   coap_print_status_t result = 0;
   size_t wkc_len = 0;
   uint8_t buf[4];
+  coap_opt_iterator_t opt_iter;
+  coap_opt_t *opt;
+  coap_string_t *filter = NULL;
+
+  /*
+   * The filter (RFC 6690 4.1: one search criterion) is the value of the
+   * first Uri-Query option as it is on the wire, i.e. percent-decoded.
+   * query is the re-encoded query string built by coap_get_query(), which
+   * cannot be compared with attribute values. Further Uri-Query options
+   * are not part of the filter.
+   */
+  opt = coap_check_option(request, COAP_OPTION_URI_QUERY, &opt_iter);
+  if (opt && coap_opt_length(opt) > 0) {
+    filter = coap_new_string(coap_opt_length(opt));
+    if (!filter)
+      goto error;
+    memcpy(filter->s, coap_opt_value(opt), coap_opt_length(opt));
+  }
 
   /*
    * Quick hack to determine the size of the resource descriptions for
    * .well-known/core.
    */
-  result = coap_print_wellknown_lkd(session->context, buf, &wkc_len, UINT_MAX, query);
+  result = coap_print_wellknown_lkd(session->context, buf, &wkc_len, UINT_MAX, filter);
   if (result & COAP_PRINT_STATUS_ERROR) {
     coap_log_warn("cannot determine length of /.well-known/core\n");
     goto error;
@@ -2816,7 +2834,7 @@ hnd_get_wellknown_lkd(coap_resource_t *resource,
       goto error;
 
     len = wkc_len;
-    result = coap_print_wellknown_lkd(session->context, data_string->s, &len, 0, query);
+    result = coap_print_wellknown_lkd(session->context, data_string->s, &len, 0, filter);
     if ((result & COAP_PRINT_STATUS_ERROR) != 0) {
       coap_log_debug("coap_print_wellknown failed\n");
       goto error;
@@ -2859,12 +2877,14 @@ hnd_get_wellknown_lkd(coap_resource_t *resource,
       goto error;
     }
   }
+  coap_delete_string(filter);
   response->code = COAP_RESPONSE_CODE(205);
   return;
 
 error:
   free_wellknown_response(session, data_string);
 error_released:
+  coap_delete_string(filter);
   if (response->code == 0) {
     /* set error code 5.03 and remove all options and data from response */
     response->code = COAP_RESPONSE_CODE(503);
